@@ -38,14 +38,29 @@ RULE = ("unit level: all sign patterns of 1..3 atoms over {-1,0,1}^3 (exhaustive
         "with principal moments separated by >= 8 %, grids from molgri names and synthetic grids (n_b 1..12, n_o 1..14, "
         "n_t 2..4), placements = uniform random rotation x uniform direction x radius from inside the first shell to beyond "
         "the outer bound, plus structured placements 3 margins away from a radial / direction / rotation cell boundary and "
-        "antipodal quaternion representatives, COM distances up to 30 A for every class; a frame is non-trivial and distinct by (case, frame) when it is not excluded "
-        "by the margin rule (radial 1e-4 A, direction 1e-4 in dot product, rotation 1e-3 in |q.p|)")
+        "antipodal quaternion representatives, COM distances up to 30 A for every class, plus grids with a tiny innermost "
+        "shell (first radius log-uniform 1e-9..1e-2 A) and with huge radii (1e3..1e5 A); a frame is non-trivial and distinct by (case, frame) when it is not excluded "
+        "by the margin rule (radial 1e-4 A, direction 1e-4 in dot product, rotation 1e-3 in |q.p|, each widened by the float32 "
+        "resolution of the coordinates at tiny / huge distances); the o/b/t arrays the tool derives from the full grid must equal "
+        "the generating grids")
 
 DECIMALS = 3                        # np.round(projection, DECIMALS) in _determine_positive_directions (fix c9b2235)
 THR = Fraction(1, 2 * 10 ** DECIMALS)   # the rounded projection is zero iff |x| <= THR (5e-4 A)
 MARGIN_T = 1e-4                     # Angstrom
 MARGIN_O = 1e-4                     # difference of dot products
 MARGIN_B = 1e-3                     # difference of |q.p|
+F32 = 6e-8                          # relative resolution of the float32 coordinates MDAnalysis stores
+
+
+def margins(d):
+    """margins at centre-of-mass distance d (A): the base margins, widened where the float32 coordinates of the
+    trajectory cannot resolve the placement any better (tiny distances: direction; huge distances: radius, rotation).
+    Returns (radial A, direction as difference of dot products, rotation as difference of |q.p|)."""
+    d = max(float(d), 1e-300)
+    return (max(MARGIN_T, 8 * F32 * d), max(MARGIN_O, 1e-6 / d), max(MARGIN_B, 16 * F32 * d))
+
+
+O_UNRESOLVABLE = 0.25               # direction margin beyond which the direction of a placement is not in the float32 data
 MASS = {"H": 1.008, "C": 12.011, "N": 14.007, "O": 15.999, "S": 32.06, "F": 18.998, "P": 30.974}
 
 
@@ -300,10 +315,13 @@ def placements(rng, o, b, t, n, far_ok):
         dvec = np.array([rng.gauss(0, 1) for _ in range(3)])
         dvec /= np.linalg.norm(dvec)
         r = rng.uniform(0.3 * t[0], rhi)
+        if t[0] < 0.05 and rng.random() < 0.35:
+            # a tiny innermost shell: some placements deep inside it, at its own scale and between it and the next radius
+            r = 10 ** rng.uniform(math.log10(0.3 * t[0]), math.log10(B[0]))
         if kind < 0.2:
             # radius 3 margins from a shell boundary
             k = rng.randrange(len(B))
-            r = B[k] + rng.choice([-1, 1]) * 3 * MARGIN_T * rng.uniform(1, 30)
+            r = B[k] + rng.choice([-1, 1]) * 3 * margins(B[k])[0] * rng.uniform(1, 30)
         elif kind < 0.30 and len(o) >= 2:
             # direction just off the bisector of two neighbouring grid directions
             i = rng.randrange(len(o))
@@ -315,7 +333,7 @@ def placements(rng, o, b, t, n, far_ok):
                 mid /= np.linalg.norm(mid)
                 off = (o[i] - o[j])
                 off /= np.linalg.norm(off)
-                dvec = mid + rng.choice([-1, 1]) * 3 * MARGIN_O * rng.uniform(1, 30) * off
+                dvec = mid + rng.choice([-1, 1]) * 3 * min(margins(r)[1], 0.05) * rng.uniform(1, 30) * off
                 dvec /= np.linalg.norm(dvec)
         elif kind < 0.45 and len(b) >= 2:
             # rotation just off the bisector of two neighbouring grid rotations (on S3 up to sign)
@@ -331,7 +349,7 @@ def placements(rng, o, b, t, n, far_ok):
                 mid /= np.linalg.norm(mid)
                 off = b[i] - bj
                 off /= np.linalg.norm(off)
-                q = mid + rng.choice([-1, 1]) * 3 * MARGIN_B * rng.uniform(1, 30) * off
+                q = mid + rng.choice([-1, 1]) * 3 * min(margins(r)[2], 0.05) * rng.uniform(1, 30) * off
                 q /= np.linalg.norm(q)
         elif kind < 0.52:
             # a grid rotation composed with a half turn about a coordinate axis / a pure half turn (w = 0)
@@ -478,6 +496,48 @@ def cases(ctx):
         _, og, bg, tg = grid_arrays(g)
         yield {"kind": "traj", "grid": g, "mol1": FIRST_MOL, "mol2": _strip(mol2), "cls": mol2["cls"] + "_far",
                "placements": placements(rng, og, bg, tg, 8, far_ok=True), "outliers": True, "cartesian": True}
+    # radial grids of extreme but valid magnitudes
+    #  - a tiny innermost shell (first radius log-uniform 1e-9 .. 1e-2 A, "a cell around the origin") + ordinary shells
+    #  - very large radii (1e3 .. 1e5 A; classes with structurally zero projections only up to 1e3 A: from ~2e3 A on the
+    #    float32 coordinates deform the molecule by about as much as the 5e-4 A zero test, see the note in run())
+    TINY_NAMED = [("cube4D_8", "ico_6", "[0.0000005, 0.2, 0.3]"), ("randomQ_5", "ico_12", "linspace(0.0000001, 0.4, 3)"),
+                  ("cube4D_6", "cube3D_9", "[0.00002, 0.15, 0.3]")]
+    for k in range(8 if quick else 80):
+        cls = classes[k % len(classes)]
+        mol2 = gen_molecule(rng, cls)
+        g = {"type": "raw", **raw_grid(rng, rng.randint(2, 9), rng.randint(2, 10), rng.randint(2, 4), 9.0)}
+        if k % 8 < 5:
+            g["t"] = [10 ** rng.uniform(-9, -2)] + [x for x in g["t"]][: len(g["t"]) - 1 or 1]
+            tag = "_tiny_first_shell"
+        else:
+            zero_free = cls in ("generic", "generic_axis_last")
+            # classes with structural zeros: everything (outermost placement included) stays below 1e3 A
+            R0 = 10 ** rng.uniform(3, 5) if zero_free else 10 ** rng.uniform(math.log10(40), math.log10(220))
+            g["t"] = [float(np.float64(R0 * f)) for f in [1.0, 1.4, 2.3, 2.9][: len(g["t"])]]
+            tag = "_huge_radii"
+        _, og, bg, tg = grid_arrays(g)
+        yield {"kind": "traj", "grid": g, "mol1": FIRST_MOL, "mol2": _strip(mol2), "cls": cls + tag,
+               "placements": placements(rng, og, bg, tg, 14 if quick else 30, far_ok=True),
+               "outliers": rng.random() < 0.4, "cartesian": rng.random() < 0.6}
+    for k in range(3 if quick else 24):
+        cls = classes[(k + 1) % len(classes)]
+        mol2 = gen_molecule(rng, cls)
+        if k % 3 == 0:
+            b, o, t = TINY_NAMED[(k // 3) % len(TINY_NAMED)]
+            g = {"type": "name", "b": b, "o": o, "t": t}
+            tag = "_tiny_first_shell"
+        else:
+            g = {"type": "raw", **raw_grid(rng, rng.randint(2, 6), rng.randint(2, 8), 3, 9.0)}
+            if k % 3 == 1:
+                g["t"] = [10 ** rng.uniform(-9, -2), g["t"][0], g["t"][1]]
+                tag = "_tiny_first_shell"
+            else:
+                zero_free = cls in ("generic", "generic_axis_last")
+                R0 = 10 ** rng.uniform(3, 5) if zero_free else 10 ** rng.uniform(math.log10(40), math.log10(350))
+                g["t"] = [R0, 1.5 * R0, 2.5 * R0]
+                tag = "_huge_radii"
+        yield {"kind": "traj", "grid": g, "mol1": FIRST_MOL, "mol2": _strip(mol2), "cls": cls + tag, "pt": True,
+               "outliers": False, "cartesian": k % 2 == 0}
 
 
 def _strip(m):
@@ -519,21 +579,34 @@ def impl_dirs(case):
     return {"dirs": [int(x) for x in d]}
 
 
-def impl_tassign(case):
+def _real_tool(t, o, outliers, cartesian):
+    """a REAL AssignmentTool (constructed by its own __init__, so that anything it precomputes there exists) on a
+    two-atom dummy universe and the full grid {t} x {o} x {identity}; only its per-frame functions are then called with a
+    stand-in atom group that supplies the centre of mass"""
     from molgri.molecules.transitions import AssignmentTool
+    full = np.array([list(r * np.asarray(ov, dtype=float)) + [0.0, 0.0, 0.0, 1.0] for r in t for ov in o])
+    u = universe(["C", "O"], [[[0.0, 0.0, 0.0], [1.0, 0.0, 0.0]]])
+    ref = universe(["O"], [[[0.0, 0.0, 0.0]]])
+    at = AssignmentTool(full, u, ref, include_outliers=outliers, cartesian_grid=cartesian)
+    return at
+
+
+def impl_tassign(case):
     c = np.zeros(3)
     c[case["axis"]] = case["d"]
-    self_ = types.SimpleNamespace(t_array=np.array(case["t"], dtype=float), include_outliers=case["outliers"])
     with core.quiet():
-        r = AssignmentTool._t_assignment_function(self_, FakeGroup(com=c))
+        at = _real_tool(case["t"], [[1.0, 0.0, 0.0]], case["outliers"], True)
+        if len(at.t_array) != len(case["t"]) or not np.array_equal(at.t_array, np.array(case["t"], dtype=float)):
+            return {"skip": "8-decimal rounding of the parser changed a radius"}
+        r = at._t_assignment_function(FakeGroup(com=c))
     return {"t": None if (isinstance(r, float) and math.isnan(r)) else int(r)}
 
 
 def impl_oassign(case):
-    from molgri.molecules.transitions import AssignmentTool
-    self_ = types.SimpleNamespace(o_array=np.array(case["o"], dtype=float), cartesian_grid=case["cartesian"])
     with core.quiet():
-        r = AssignmentTool._o_assignment_function(self_, FakeGroup(com=np.array(case["c"], dtype=float)))
+        at = _real_tool([1.0], case["o"], True, case["cartesian"])
+        at.o_array = np.array(case["o"], dtype=float)      # exactly the generated unit vectors (the parser re-normalises them)
+        r = at._o_assignment_function(FakeGroup(com=np.array(case["c"], dtype=float)))
     r = np.asarray(r).flatten()
     return {"o": int(r[0]), "len": int(len(r))}
 
@@ -698,6 +771,9 @@ def compare(ctx, case, out, mouts):
         return
     if kind == "tassign":
         m = mouts[0]
+        if "skip" in out:
+            ctx.branch("tassign:skipped_radii_not_recovered_bitwise")
+            return
         iv = out["t"] if "t" in out else {"err": out["err"]}
         mv = m["ok"] if "ok" in m else {"err": m["err"]}
         if not case.get("dyadic") and len(case["t"]) >= 2:
@@ -941,6 +1017,8 @@ def oracle_dirs(ctx, case, out):
 
 def oracle_tassign(ctx, case, out):
     t, d = case["t"], case["d"]
+    if "skip" in out:
+        return
     if "err" in out:
         if len(t) >= 2 or case["outliers"]:
             ctx.fail("C11:t_exception", f"radial assignment raised {out['err']}", case)
@@ -972,6 +1050,17 @@ def oracle_traj(ctx, case, out):
     X2 = np.array(case["mol2"]["X"], dtype=float)
     ideal = _ideal_signs(els2, X2) or _ideal_signs(els2, X2, tol=1e-4) or []
     ctx.count(max(0, out.get("n", 1) - 1))      # every frame is one evaluation of the assignment (the case itself counted 1)
+    # the decomposition the tool starts from must be the generating grids: n_o directions, n_b rotations, n_t radii
+    gi = out["grid"]
+    if (len(gi["o"]), len(gi["b"]), len(gi["t"])) != (nO, nB, nT):
+        ctx.fail("C11:grid_decomposition", "the o/b/t arrays the tool derives from the full grid do not have n_o/n_b/n_t rows",
+                 {**case, "placements": case.get("placements", [])[:1]}, [nO, nB, nT], [len(gi["o"]), len(gi["b"]), len(gi["t"])])
+        return
+    if not (np.allclose(gi["t"], tg, rtol=1e-9, atol=2e-8) and np.allclose(gi["o"], og, atol=2e-8)
+            and np.allclose(gi["b"], bg, atol=2e-8)):
+        ctx.fail("C11:grid_decomposition", "the o/b/t arrays the tool derives from the full grid differ from the generating grids",
+                 {**case, "placements": case.get("placements", [])[:1]}, {"t": list(map(float, tg))}, {"t": gi["t"]})
+        return
     ctx.branch("traj:cls_" + case.get("cls", "?"))
     ctx.branch("traj:grid_" + case["grid"]["type"])
     ctx.branch("traj:outliers_%s" % case["outliers"])
@@ -1017,8 +1106,19 @@ def oracle_traj(ctx, case, out):
     if case.get("pt"):
         # a pseudotrajectory generated from a grid is assigned back to 0,1,2,... exactly
         exp = list(range(len(full)))
-        if full_i != exp:
-            bad = [k for k, (a, b) in enumerate(zip(full_i, exp)) if a != b][:5]
+        # a shell whose radius is below the float32 resolution of the atom coordinates has no direction in the trajectory:
+        # for its frames only shell and rotation are required (counted); every other frame must come back exactly
+        unres = [margins(tg[k // (nB * nO)])[1] > O_UNRESOLVABLE for k in exp]
+        if any(unres):
+            ctx.branch("excluded:pt_direction_unresolvable_in_float32", sum(unres))
+
+        def same(k):
+            a = full_i[k]
+            if not unres[k]:
+                return a == k
+            return a is not None and a // (nB * nO) == k // (nB * nO) and a % nB == k % nB
+        if not all(same(k) for k in exp):
+            bad = [k for k in exp if not same(k)][:5]
             key = "C11:sign_noise" if any(k in noisy_frames or -1 in noisy_frames for k in bad) else "C11:pt_roundtrip"
             ctx.fail(key, "pseudotrajectory of the grid is not assigned back to 0,1,2,...", case,
                      [exp[k] for k in bad], [full_i[k] for k in bad])
@@ -1044,13 +1144,14 @@ def oracle_traj(ctx, case, out):
         # frame axes = diag(s) * refaxes * R(q)^T with s = +-1, s1*s2*s3 = 1
         S = np.array(out["frames"][k]["pa"]) @ quat_to_matrix(q) @ np.array(out["refpa"]).T
         sd = np.diag(S)
-        if not (np.allclose(np.abs(S), np.eye(3), atol=1e-4) and np.prod(np.sign(sd)) > 0):
+        if not (np.allclose(np.abs(S), np.eye(3), atol=max(1e-4, 200 * F32 * d)) and np.prod(np.sign(sd)) > 0):
             ctx.branch("external:principal_axes_not_equivariant_up_to_even_flips")
         else:
             ctx.branch("external:principal_axes_hypothesis_validated")
         # radial
+        mt, mo, mb = margins(d)
         excluded = False
-        if min(abs(d - b) for b in B) < MARGIN_T:
+        if min(abs(d - b) for b in B) < mt:
             ctx.branch("excluded:radial_boundary")
             excluded = True
         kt = next((i for i, b in enumerate(B) if d < b), None)
@@ -1059,16 +1160,31 @@ def oracle_traj(ctx, case, out):
         # direction
         dots = og @ (c / d)
         oo = np.argsort(-dots)
-        if nO > 1 and dots[oo[0]] - dots[oo[1]] < MARGIN_O:
+        o_unres = mo > O_UNRESOLVABLE
+        if o_unres:
+            ctx.branch("excluded:direction_unresolvable_in_float32")
+        elif nO > 1 and dots[oo[0]] - dots[oo[1]] < mo:
             ctx.branch("excluded:direction_boundary")
             excluded = True
         # rotation
         ad = np.abs((bg / np.linalg.norm(bg, axis=1)[:, None]) @ q)
         bo = np.argsort(-ad)
-        if nB > 1 and ad[bo[0]] - ad[bo[1]] < MARGIN_B:
+        if nB > 1 and ad[bo[0]] - ad[bo[1]] < mb:
             ctx.branch("excluded:rotation_boundary")
             excluded = True
         if excluded:
+            continue
+        if o_unres:
+            # only shell and rotation can be required of this frame
+            obs = full_i[k]
+            ok = (obs is None) if kt is None else (obs is not None and obs // (nB * nO) == kt and obs % nB == int(bo[0]))
+            if not ok:
+                ctx.fail("C11:membership", "assigned shell / rotation differ from geometric membership (direction not "
+                         "resolvable in float32, not required)", {**case, "placements": [p], "frame_of_original": k},
+                         [kt, None, int(bo[0])], obs)
+            else:
+                ctx.nt((_case_id(case), k))
+                ctx.branch("frames:shell_and_rotation_only")
             continue
         exp = None if kt is None else (kt * nO + int(oo[0])) * nB + int(bo[0])
         ctx.branch("frames:nan_expected" if exp is None else "frames:cell_expected")
@@ -1176,6 +1292,14 @@ def run(ctx):
     _process(ctx, all_cases(), workers=0 if ctx.quick else 8)
     ctx.note("MDAnalysis AtomGroup.principal_axes() is an external parameter of the model; every frame's axes are checked "
              "to be orthonormal and right-handed (branch external:principal_axes_not_righthanded_orthonormal counts failures)")
+    ctx.note("limits of the float32 trajectory (not of molgri): (i) a placement / grid shell at a distance below ~4e-6 A has "
+             "no resolvable direction in the coordinates - for such frames only shell and rotation are required (branches "
+             "excluded:*unresolvable_in_float32); (ii) molecules with structurally zero projections (planar, mirror plane, C2v) "
+             "are generated only up to COM distances of 1e3 A: from ~2e3 A on the float32 coordinates (ulp 2.4e-4 A and more) "
+             "deform the molecule by about as much as the 5e-4 A zero test of _determine_positive_directions, and the "
+             "pseudotrajectory round trip returns wrong rotation indices / raises ValueError there (witness: planar N,F,F, "
+             "radii 1850/2775/4626 A, frame 137 assigned 133; reported to the integrator); molecules without "
+             "structural zeros are exercised up to 1e5 A with margins widened by the float32 resolution")
     ctx.note("np.linalg.norm (sqrt), scipy Rotation.magnitude (monotone in the trace) and from_full_array_to_o_b_t (C09) "
              "are external parameters; the parsed grid arrays are compared with the grid's own arrays per trajectory")
 
